@@ -225,7 +225,7 @@ func httpErrCls(body []byte) string {
 	if strings.Contains(msg, "SECRET") || strings.Contains(msg, "10.0.0.5") {
 		return "LEAK"
 	}
-	if clientErrLiterals[msg] || msg == "rejected by hook" {
+	if isClientMsgHTTP(msg) {
 		return "client"
 	}
 	return "internal"
@@ -474,7 +474,7 @@ func trkUDP(c *Ctx, uc udpCase, tc trkCase) {
 			switch {
 			case strings.Contains(string(msg), "SECRET") || strings.Contains(string(msg), "10.0.0.5"):
 				cls = "LEAK"
-			case clientErrLiterals[string(msg)] || string(msg) == "rejected by hook":
+			case isClientMsgUDP(string(msg)):
 				cls = "client"
 			}
 			if afterWait(wl, false) {
